@@ -6,6 +6,7 @@
   rowgroupby (itertools.groupby) forms on the table sorted by the key (C05, any buffer size).
 -/
 import PetlProofs.Group
+import Petl.Ops
 
 namespace Petl.C09
 open Petl
@@ -110,5 +111,24 @@ theorem aggregate_applies_to_group (keyHdr : Row) (field : Val) (vidx : Option (
 omit hbs in
 example : (sortedGroups [0] (some 1) [[.num .int (.fin 2)], [.num .int (.fin 1), .str [97]], [.num .float (.fin 1)]]).length = 2 := by
   decide +kernel
+
+/-- `groupcountdistinctvalues` (as implemented after petl d4bbfd2: cut, distinct, count per key): the counts add up to the
+    number of distinct (key…, value) rows, one output row per key of those, keys strictly ascending, every count ≥ 1 -/
+theorem groupcountdistinct_counts (vidx : Nat) :
+    ((groupCountDistinct kidx vidx bs rows).map (·.2)).sum = (gcdvDistinct kidx vidx bs rows).length ∧
+    (groupCountDistinct kidx vidx bs rows).Pairwise (fun g h => Val.lt g.1 h.1 = true) ∧
+    (∀ g ∈ groupCountDistinct kidx vidx bs rows, 1 ≤ g.2) := by
+  unfold groupCountDistinct
+  refine ⟨?_, ?_, ?_⟩
+  · rw [List.map_map]
+    exact group_counts_sum_nrows (List.range kidx.length) bs hbs (gcdvDistinct kidx vidx bs rows)
+  · rw [List.pairwise_map]
+    exact (groups_keys_strictly_ascending (List.range kidx.length) bs hbs (gcdvDistinct kidx vidx bs rows)).1
+  · intro g hg
+    obtain ⟨g', hg', rfl⟩ := List.mem_map.mp hg
+    have := (groups_keys_strictly_ascending (List.range kidx.length) bs hbs (gcdvDistinct kidx vidx bs rows)).2 g' hg'
+    cases h : g'.2 with
+    | nil => exact absurd h this
+    | cons a as => simp
 
 end Petl.C09
